@@ -1021,6 +1021,103 @@ def run(R: Run):
             R.corr(f"c10 paste {dshape[0]} {dshape[1]} {bool_s(A.e < 0)} {bool_s(A.a < 0)} {ns(ys)} {ns(xs)} {ns(yd)} {ns(xd)} "
                    f"-999 {img_s(src)}", lambda: img_s(do_paste(src, dshape, r, A, -999)), sig="paste-op|" + kind)
 
+    # ================================================================ the overview path: read_shrink k = 2 .. 64, residues across
+    #     the whole translation band (edges included), caller tolerances: exact correspondence of the full plan, the laws
+    #     roi_src = k * r' / r' starts where the snapped overview transform puts it, and paste-vs-warp THROUGH the overview
+    #     (the statement of paste_overview_end_to_end, exercised on the boundary of its hypotheses)
+    TT_OV = [2.0**-5, 2.0**-4, 2.0**-4, 0.125, 0.25, 0.375, 0.5 - 2.0**-10, 0.05, 0.05, 0.05, 0.15, 0.2, 0.75]
+    for i in range(R.pick(700, 7000)):
+        exact = i % 2 == 0
+        k = rng.choice([2, 4, 8, 16, 16, 32, 64] if exact else [2, 3, 4, 5, 6, 7, 8, 9, 10, 11, 12, 12, 13, 14, 15, 16, 16, 24, 32])
+        ttol = rng.choice(TT_OV)
+        stol = rng.choice([1e-3, 1e-3, 2.0**-7, 1e-2])
+        band = min(ttol, 0.5)
+        cls = rng.choice(["zero", "mid", "top", "top", "top-", "edge", "out", "half-src-px"])
+        if cls == "half-src-px":  # the smallest residue that is half a SOURCE pixel or more: 0.5/k .. 0.5/k + a bit
+            mag = 0.5 / k + rng.choice([0, 2.0**-10, 2.0**-7])
+        else:
+            mag = {"zero": 0, "mid": band / 2, "top": band * (1 - 2.0**-4), "top-": band * (1 - 2.0**-8), "edge": band,
+                   "out": band * (1 + 2.0**-4)}[cls]
+        if exact and Fraction(mag).denominator > 2**20:  # keep k * (offset + residue) an exact double
+            mag = math.floor(mag * 2**12) / 2**12
+        rx = mag * rng.choice([1, -1])
+        ry = rng.choice([0, 0, rx, -rx / 2])
+        L = (rng.randint(4, 14), rng.randint(4, 14))                     # source size in overview pixels
+        Ns = tuple(k * n_ - rng.randint(0, k - 1) for n_ in L)          # ragged last overview pixel
+        Nd = (rng.randint(2, L[0] + 2), rng.randint(2, L[1] + 2))
+        plc = rng.choice(["contained", "contained", "low", "high", "both"])
+        oy = c03.place_axis(rng, plc if Nd[0] <= L[0] else "both", L[0], Nd[0])
+        ox = c03.place_axis(rng, rng.choice(["contained", "contained", "low", "high"]) if Nd[1] <= L[1] else "both", L[1], Nd[1])
+        sg = (rng.choice([1, 1, -1]), rng.choice([1, 1, -1]))
+        S = Affine.identity() if (exact or rng.random() < 0.4) else c03.float_src_affine(rng, rng.choice([10, 30, 0.00025, 1.0]))
+        Mx = Affine(k * sg[0], 0, k * (ox + rx) + (k * Nd[1] if sg[0] < 0 else 0), 0, k * sg[1], k * (oy + ry) + (k * Nd[0] if sg[1] < 0 else 0))
+        D = S * Mx
+        src_g, dst_g = gb(Ns, S), gb(Nd, D)
+        conv = rng.random() < 0.3
+        case = {"fn": "compute_reproject_roi", "src_shape": Ns, "dst_shape": Nd, "src_affine": list(S)[:6], "dst_affine": list(D)[:6],
+                "ttol": ttol, "stol": stol, "crs": CRS0, "positional": conv, "overview": True, "dtype": "int16"}
+        res = []
+
+        def fov():
+            r_ = c03.call_plan(O, conv, src_g, dst_g, ttol=ttol, stol=stol)
+            res.append(r_)
+            return c03.plan_s(r_)
+
+        out = guarded(fov)
+        tag = f"k{min(k, 17) if k < 17 else '17+'}|{cls}|ttol{'<' if ttol * k < 0.5 else '>='}0.5/k"
+        if exact:
+            R.corr(f"c10 plan {Ns[0]} {Ns[1]} {Nd[0]} {Nd[1]} 1;0;0;0;1;0 {aff_s(D)} {frac_s(ttol)} {frac_s(stol)} N N",
+                   lambda: out, sig="ovplan|" + tag)
+        if not res:
+            R.oracle(False, "plan-raises", case, f"compute_reproject_roi raised {out}", sig="ovplan|raises")
+            continue
+        r = res[0]
+        frx, fry = abs(rx - round(rx)), abs(ry - round(ry))  # distance to the nearest whole overview pixel
+        inside = frx < ttol * (1 - 1e-9) and fry < ttol * (1 - 1e-9)
+        outside = frx > ttol * (1 + 1e-9) or fry > ttol * (1 + 1e-9)
+        if inside or outside:  # exactly on the edge of the band is decided by `<` in doubles: not judged here (the exact stream does)
+            R.oracle(bool(r.paste_ok) == inside, "paste-rejected-within-tolerance" if inside else "paste-ok-outside-tolerance", case,
+                     f"residues ({rx}, {ry}) overview px, ttol {ttol}, read_shrink {k}: paste_ok={r.paste_ok}", sig="ovplan|band|" + cls)
+        if not r.paste_ok:
+            continue
+        (ys, xs), (yd, xd) = r.roi_src, r.roi_dst
+        R.oracle(int(r.read_shrink) == k, "paste-read-shrink-not-the-scale", case, f"read_shrink {r.read_shrink} for scale {k}",
+                 sig="ovplan|read-shrink")
+        law = (all(v % k == 0 for v in (ys.start, ys.stop, xs.start, xs.stop))
+               and ((ys.stop - ys.start) // k, (xs.stop - xs.start) // k) == (yd.stop - yd.start, xd.stop - xd.start))
+        R.oracle(law, "shrink-roi-not-scaled", case, f"read_shrink {k}: roi_src={r.roi_src} roi_dst={r.roi_dst}", sig="ovplan|law|" + tag)
+        if not law:
+            continue
+        # position: the overview block starts where the overview transform, snapped to whole OVERVIEW pixels, puts it
+        nonempty = yd.stop > yd.start and xd.stop > xd.start
+        if nonempty and abs(rx) < 0.5 - 1e-9 and abs(ry) < 0.5 - 1e-9:
+            want_x = (ox + xd.start) if sg[0] > 0 else (ox + Nd[1] - xd.stop)
+            want_y = (oy + yd.start) if sg[1] > 0 else (oy + Nd[0] - yd.stop)
+            R.oracle((xs.start // k, ys.start // k) == (want_x, want_y), "shrink-roi-misplaced", case,
+                     f"read_shrink {k}, residues ({rx}, {ry}): overview block starts at (x {xs.start // k}, y {ys.start // k}), the "
+                     f"transform snapped to whole overview pixels puts it at ({want_x}, {want_y}); roi_src={r.roi_src} roi_dst={r.roi_dst}",
+                     sig="ovplan|position|" + tag)
+            # paste through the overview == nearest-neighbour warp of the whole overview image (GDAL), every few cases
+            if i % 3 == 0:
+                ov_g = src_g.zoom_out(k)
+                ov = make_src(rng, tuple(ov_g.shape), "int16")
+                try:
+                    w, prob, lay = warp_nearest(rio_reproject, rng, ov, np.full(Nd, -999, dtype="int16"), ov_g, dst_g, None, -999)
+                    blk = ov[ys.start // k:ys.stop // k, xs.start // k:xs.stop // k]
+                    if sg[1] < 0:
+                        blk = blk[::-1, :]
+                    if sg[0] < 0:
+                        blk = blk[:, ::-1]
+                    p_img = np.full(Nd, -999, dtype="int16")
+                    p_img[r.roi_dst] = blk
+                    neq = p_img != w
+                    R.oracle(not neq.any(), "paste-differs-from-warp", {**case, "layout": lay},
+                             f"read_shrink {k}: {int(neq.sum())} of {neq.size} pixels differ between the pasted overview block and the "
+                             f"nearest-neighbour warp of the whole overview; roi_src={r.roi_src} roi_dst={r.roi_dst}",
+                             sig="ovplan|gdal|" + tag)
+                except Exception as ex:  # pylint: disable=broad-except
+                    R.oracle(False, "paste-or-warp-raises", case, f"{type(ex).__name__}: {ex}", sig="plan|raises")
+
     # --- mosaics: sequences of warps into ONE shared, pre-filled destination (destination pre-state x dtype x options)
     for i in range(R.pick(160, 1600)):
         dt = DTYPES[i % len(DTYPES)]
@@ -1402,6 +1499,29 @@ def replay(R: Run, rec) -> int:
         print("paste_ok", r.paste_ok, "planned as same-CRS pair:", r.transform.linear is not None)
         return 1 if (r.paste_ok or r.transform.linear is not None) else 0
     print("roi_src", r.roi_src, "roi_dst", r.roi_dst, "paste_ok", r.paste_ok, "read_shrink", r.read_shrink)
+    if case.get("overview") and r.paste_ok and r.read_shrink > 1:
+        k = int(r.read_shrink)
+        (ys, xs), (yd, xd) = r.roi_src, r.roi_dst
+        law = (all(v % k == 0 for v in (ys.start, ys.stop, xs.start, xs.stop))
+               and ((ys.stop - ys.start) // k, (xs.stop - xs.start) // k) == (yd.stop - yd.start, xd.stop - xd.start))
+        print("roi_src = read_shrink x overview block of the shape of roi_dst:", law)
+        if not law:
+            return 1
+        A = r.transform.back.linear
+        ov_g = src_g.zoom_out(k)
+        ov = make_src(R.rng, tuple(ov_g.shape), "int16")
+        w = rio_reproject(ov, np.full(ds, -999, dtype="int16"), ov_g, dst_g, "nearest", dst_nodata=-999)
+        blk = ov[ys.start // k:ys.stop // k, xs.start // k:xs.stop // k]
+        if A.e < 0:
+            blk = blk[::-1, :]
+        if A.a < 0:
+            blk = blk[:, ::-1]
+        p_img = np.full(ds, -999, dtype="int16")
+        p_img[r.roi_dst] = blk
+        neq = p_img != w
+        print(f"{int(neq.sum())} of {neq.size} pixels differ between the pasted overview block and the nearest-neighbour warp of the "
+              f"whole {k}-fold overview")
+        return 1 if neq.any() else 0
     if not (r.paste_ok and r.read_shrink == 1):
         return 1 if key in ("paste-ok-outside-tolerance", "shrink-roi-not-scaled") else 0
     dt = case.get("dtype", "int16")
